@@ -14,8 +14,9 @@ Set Warnings "-notation-overridden,-ambiguous-paths".
 From mathcomp Require Import all_ssreflect all_algebra all_real_closed.
 From mathcomp Require Import ssrZ.
 Set Warnings "notation-overridden,ambiguous-paths".
+From LP Require Import AlgNum AlgNumProofs RootIsoSort.
 From LP Require Import UPolySpec RootIsoProofs SturmItv.
-From LP Require Import Scalar RefAlg RefAlgSpec RefAlgValid.
+From LP Require Import Scalar RefAlg RefAlgSpec RefAlgValid RootIsoFull RootIsoBisect RootIsoEnd RootIsoDiv.
 Import GRing.Theory Num.Theory.
 Local Open Scope ring_scope.
 
@@ -237,7 +238,17 @@ Print Assumptions C06_count_open_correct.
 
 (* ---- what is NOT proved (kept as statements so that the gap is visible) *)
 
-(* libpoly's own algorithm (faithful model) always produces an accepted list *)
+(* libpoly's own algorithm (faithful model) always produces an accepted list.  STILL NOT PROVED in this form: the
+   model stops BEFORE libpoly's final qsort by lp_algebraic_number_cmp, which refines overlapping intervals of
+   different factors; an accepted list for f itself needs the roots of different factors separated by rationals
+   (a root-separation / Archimedean argument that is not available in an arbitrary real closed field without
+   more work).  NOTE: this statement is STRICTLY STRONGER than property C06, which only asks that an item's interval
+   contains its root and no other root of the item's OWN polynomial; the property-level statement for the model is
+   the theorem C06_libpoly_isolation_end_to_end below (isolation + the final sort with the C07 comparison model).
+   What IS proved in the check_isolation form is the factor-wise statement C06_libpoly_isolation_factorwise below and the count
+   C06_libpoly_isolation_count.  The stronger reading "a permutation of the model's own items is accepted for f"
+   is FALSE for the model (Example C06_ex_model_needs_final_refinement): this is the unmodelled refinement, not a
+   defect of libpoly (the real output is checked by check_isolation on every run). *)
 Definition C06_libpoly_isolation_full_statement : Prop :=
   forall fuel f l, lp_roots_isolate fuel f = Some l -> pis_zero f = false ->
     exists items, List.length items = List.length l /\ check_isolation f items = true.
@@ -246,6 +257,105 @@ Definition C06_libpoly_count_full_statement : Prop :=
   forall (R : rcfType) f J, pis_zero f = false -> (0 < qlo_d J)%R -> (0 < qhi_d J)%R ->
     riq_lt (qlo_n J) (qlo_d J) (qhi_n J) (qhi_d J) ->
     lp_roots_count f (Some J) = Z.of_nat (size [seq x <- rootsR (PR R f) | in_qitv J x]).
+
+(* ---- the count statement is now a THEOREM (RootIsoFull.v).  lp_roots_count is the faithful repaired model of
+   lp_upolynomial_roots_count: content and power of x split off, the square-free factor loop (on the reference
+   gcd / exact division), libpoly's own Sturm sequence per factor (reduce_Z, sign correction), its own
+   zero-skipping sign-change counter with the max_changes cut-off, the open/closed end adjustments, summed over
+   the factors.  Guard: lo < hi (a point interval [a,a] is answered by the model's separate first branch). *)
+Theorem C06_libpoly_count_full : C06_libpoly_count_full_statement.
+Proof. exact lp_roots_count_full. Qed.
+Print Assumptions C06_libpoly_count_full.
+
+(* the model's square-free factor list splits the distinct real roots of f: every factor is non-zero and divides f
+   over Z, and at every real x the multiplicities of x in the factors sum to [x is a root of f] - so every real
+   root of a factor is simple, the factors have pairwise disjoint real roots, and together they have all of them *)
+Theorem C06_libpoly_sqfree_factors : forall (R : rcfType) (f : list Z), PR R f != 0 ->
+  [/\ forall gk, gk \in lp_sqfree_factors f -> PR R gk.1 != 0 /\ GcdSpec.rdvd (Poly gk.1) (Poly f),
+      forall gk, gk \in lp_sqfree_factors f -> gk.1 = [:: Z0; Zpos xH] \/ ~~ root (PR R gk.1) 0
+    & forall x : R, (\sum_(gk <- lp_sqfree_factors f) \mu_x (PR R gk.1) = root (PR R f) x :> nat)%N].
+Proof. exact lp_sqfree_factors_spec. Qed.
+Print Assumptions C06_libpoly_sqfree_factors.
+
+(* ---- isolation by the faithful model (RootIsoBisect.v): lp_grow, the (a,b] recursion lp_isolate with its three
+   exits and the max_changes cut-off a_ch, lp_anum_construct (bisection + refinement with ceil/floor), the x factor.
+   Whenever the model answers Some l, l is the concatenation - square-free factor by square-free factor - of lists
+   EACH accepted by the proved checker for its factor (chk_factor gk l' = check_isolation gk.1 (items of l')): by
+   C06_isolation_checker_exact the items of a factor are exactly its distinct real roots in increasing order, each
+   a dyadic point or an open dyadic interval of ppp(factor) with a sign change and no other root of it; by
+   C06_libpoly_sqfree_factors the factors have pairwise disjoint simple real roots which together are the real
+   roots of f.  Invariant of the recursion: a_ch, b_ch are the Sturm counts at the dyadic ends, the items of the
+   result lie in (a, b], are increasing and disjoint, and their number is a_ch - b_ch.  No fuel assumption: the
+   statement is about every answer Some l (termination needs an Archimedean field). *)
+Theorem C06_libpoly_isolation_factorwise : forall (R : rcfType) (fuel : nat) (f : list Z) (l : list ri_anum),
+  pis_zero f = false -> lp_roots_isolate fuel f = Some l ->
+  exists2 ls : seq (seq ri_anum), l = flatten ls
+    & all2 chk_factor (if Nat.leb (length (pnorm f)) 1 then [::] else lp_sqfree_factors f) ls.
+Proof. exact lp_roots_isolate_ok. Qed.
+Print Assumptions C06_libpoly_isolation_factorwise.
+
+(* one factor, stated directly: g non-zero with simple real roots, "constant coefficient 0" only for g = x *)
+Theorem C06_libpoly_isolation_one_factor : forall (R : rcfType) (g : list Z),
+  PR R g != 0 -> (forall x : R, (\mu_x (PR R g) <= 1)%N) -> forall (fuel : nat) (l : list ri_anum),
+  (Z.eqb (List.nth 0 (pnorm g) Z0) Z0 -> g = [:: Z0; Zpos xH]) ->
+  lp_isolate_one g fuel = Some l -> check_isolation g (map item_of_anum l) && all sign_cached l.
+Proof. exact lp_isolate_one_ok. Qed.
+Print Assumptions C06_libpoly_isolation_one_factor.
+
+(* the number of roots the model returns is the number of distinct real roots of f *)
+Theorem C06_libpoly_isolation_count : forall (R : rcfType) (fuel : nat) (f : list Z) (l : list ri_anum),
+  pis_zero f = false -> lp_roots_isolate fuel f = Some l -> size l = size (rootsR (PR R f)).
+Proof. exact lp_roots_isolate_size. Qed.
+Print Assumptions C06_libpoly_isolation_count.
+
+(* ---- END TO END (RootIsoSort.v, RootIsoEnd.v): the property-level statement for the faithful model.
+   lp_roots_isolate_sorted = the isolation factor by factor followed by the sort with the faithful model of
+   lp_algebraic_number_cmp (AlgNum.an_cmp, property C07: gcd reduction for equal intervals, refinement race
+   otherwise; the refined operands replace the originals).  libc's qsort is represented by an insertion sort that
+   threads the refined operands.  Dens s vs: s and vs have the same length and item i denotes vs_i in the sense of
+   C07's Den: a point item IS the dyadic rational vs_i; an interval item (p, ]a,b[, sa, sb) has
+   roots (PR p) a b = [:: vs_i] (vs_i is the ONE real root of p in the open dyadic interval) and sa, sb are the
+   signs of p at the ends, opposite.  Conclusion: the answer denotes EXACTLY MathComp's strictly increasing list of
+   all distinct real roots of f - every root once, in increasing order, each isolated from the other roots of the
+   item's own polynomial.  Every R : rcfType, every f <> 0, every fuel; only answers Some s are constrained. *)
+Theorem C06_libpoly_isolation_end_to_end : forall (R : rcfType) (fuel : nat) (f : list Z) (s : list anum),
+  pis_zero f = false -> lp_roots_isolate_sorted fuel f = Some s -> Dens s (rootsR (PR R f)).
+Proof. exact lp_roots_isolate_sorted_exact. Qed.
+Print Assumptions C06_libpoly_isolation_end_to_end.
+
+(* the same, item by item *)
+Theorem C06_libpoly_isolation_end_to_end_items : forall (R : rcfType) (fuel : nat) (f : list Z) (s : list anum),
+  pis_zero f = false -> lp_roots_isolate_sorted fuel f = Some s ->
+  size s = size (rootsR (PR R f)) /\
+  forall i, (i < size s)%N -> Den (nth (an_point an_dzero) s i) (nth 0 (rootsR (PR R f)) i).
+Proof. by move=> R fuel f s fz E; apply: Dens_nth; exact: lp_roots_isolate_sorted_exact E. Qed.
+Print Assumptions C06_libpoly_isolation_end_to_end_items.
+
+(* the defining polynomial of every interval item of the answer divides f (in R[x], i.e. over Q): the isolation
+   uses ppp of a square-free factor, refinement keeps the polynomial, the equal-interval branch of the comparison
+   replaces it by a gcd.  an_poks P s: P holds of the polynomial of every interval item of s.  Together with
+   C06_libpoly_isolation_end_to_end: a point item is a dyadic rational root of f; an interval item is a
+   polynomial dividing f with an open dyadic interval containing exactly one real root of it - the denoted one *)
+Theorem C06_libpoly_isolation_end_to_end_divides : forall (R : rcfType) (fuel : nat) (f : list Z) (s : list anum),
+  pis_zero f = false -> lp_roots_isolate_sorted fuel f = Some s ->
+  an_poks (fun p => PR R p %| PR R f) s.
+Proof. exact lp_roots_isolate_sorted_divides. Qed.
+Print Assumptions C06_libpoly_isolation_end_to_end_divides.
+
+(* independent of the sort: the UNSORTED answer of the isolation model denotes a permutation of the roots *)
+Theorem C06_libpoly_isolation_perm : forall (R : rcfType) (fuel : nat) (f : list Z) (l : list ri_anum),
+  pis_zero f = false -> lp_roots_isolate fuel f = Some l ->
+  exists2 vs : seq R, Dens (List.map anum_of_ri l) vs & perm_eq vs (rootsR (PR R f)).
+Proof. exact lp_roots_isolate_perm. Qed.
+Print Assumptions C06_libpoly_isolation_perm.
+
+(* the sort alone: any list of numbers that denote vs is returned as numbers denoting the sorted permutation of vs
+   (the comparator answers the order of the denotations - C07_cmp_full - and keeps the denotations) *)
+Theorem C06_sort_by_cmp : forall (R : rcfType) (fuel : nat) (l : list anum) (vs : seq R) (s : list anum),
+  Dens l vs -> an_isort fuel l = Some s ->
+  exists ws : seq R, [/\ Dens s ws, perm_eq ws vs & sorted <=%R ws].
+Proof. exact isortP. Qed.
+Print Assumptions C06_sort_by_cmp.
 
 (* ---- non-vacuity *)
 Local Close Scope ring_scope.
@@ -267,6 +377,32 @@ Example C06_ex_certified_count : certified_count [:: 4; -4; 1] = Some 1%N /\ cer
 Proof. by vm_compute. Qed.
 Example C06_ex_count_in_itv :
   count_in_itv [:: IAlg [:: -2; 0; 1] (-3) 2 (-5) 4; IAlg [:: -2; 0; 1] 5 4 3 2] (mkRiItv 0 1 false 2 1 false) = 1%N.
+Proof. by vm_compute. Qed.
+(* the model answers for (x^2-2)(8x-11)^2, factor by factor; the interval of sqrt2 and the one of 11/8 coincide,
+   so no ordering of the model's own items passes items_sorted: libpoly's final qsort refines them (not modelled) *)
+Example C06_ex_model_needs_final_refinement :
+  let f := [:: -242; 352; -7; -176; 64] in
+  let i1 := IAlg [:: -2; 0; 1] (-3) 2 (-5) 4 in
+  let i2 := IAlg [:: -2; 0; 1] 5 4 3 2 in
+  let i3 := IAlg [:: -11; 8] 5 4 3 2 in
+  [/\ option_map (List.map item_of_anum) (lp_roots_isolate 100 f) = Some [:: i1; i2; i3],
+      check_isolation f [:: i1; i2; i3] = false, check_isolation f [:: i1; i3; i2] = false
+    & chk_factor ([:: -2; 0; 1], 1%N) [:: RItv [:: -2; 0; 1] (-3, 1%num) (-5, 2%num) 1 (-1);
+                                          RItv [:: -2; 0; 1] (5, 2%num) (3, 1%num) (-1) 1] = true].
+Proof. by split; vm_compute. Qed.
+Example C06_ex_model_sorted :   (* the same f end to end: 11/8 has become a point, sqrt2 is refined to (11/8, 3/2) *)
+  lp_roots_isolate_sorted 100 [:: -242; 352; -7; -176; 64]
+  = Some [:: mkAN (Some [:: -2; 0; 1]) (mkDy (-3) 1) (mkDy (-5) 2) 1 (-1);
+             an_point (mkDy 11 3);
+             mkAN (Some [:: -2; 0; 1]) (mkDy 11 3) (mkDy 3 1) (-1) 1].
+Proof. by vm_compute. Qed.
+Example C06_ex_model_count_interval :   (* x^2-2 on [0,2] (the pinned code answered 2), (x-1)(x-2)^2(x-3)^3 on [0,5] *)
+  lp_roots_count [:: -2; 0; 1] (Some (mkRiItv 0 1 false 2 1 false)) = 1
+  /\ lp_roots_count (pmul [:: -1; 1] (pmul (ppow [:: -2; 1] 2) (ppow [:: -3; 1] 3))) (Some (mkRiItv 0 1 false 5 1 false)) = 3.
+Proof. by vm_compute. Qed.
+Example C06_ex_model_isolates :
+  option_map (List.map item_of_anum) (lp_roots_isolate 100 [:: 0; -2; 0; 1])
+  = Some [:: IAlg [:: -2; 0; 1] (-3) 2 (-5) 4; IAlg [:: -2; 0; 1] 5 4 3 2; IPoint 0 1].
 Proof. by vm_compute. Qed.
 (* the theorems are about a non-empty class of fields: the real algebraic numbers are a real closed field *)
 Example C06_ex_realalg_instance :
